@@ -29,10 +29,13 @@ def main():
             extra = sys.argv[i + 1].split(',')
     out = os.path.join(ROOT, 'seeded', sid)
     os.makedirs(out, exist_ok=True)
-    shutil.copy(diff, os.path.join(out, 'patch.diff'))
-    shutil.copy(demo, os.path.join(out, 'demo.py'))
+    def cp(a, b):
+        if os.path.abspath(a) != os.path.abspath(b):
+            shutil.copy(a, b)
+    cp(diff, os.path.join(out, 'patch.diff'))
+    cp(demo, os.path.join(out, 'demo.py'))
     if notes and os.path.exists(notes):
-        shutil.copy(notes, os.path.join(out, 'notes.md'))
+        cp(notes, os.path.join(out, 'notes.md'))
     d = subprocess.check_output(['mktemp', '-d', '/tmp/repo_seed.XXXXXX'], text=True).strip()
     os.rmdir(d)
     sh(['git', '-C', '/repo', 'worktree', 'add', '-q', '--detach', d, 'HEAD'])
